@@ -402,9 +402,122 @@ let spec_big inp out =
       Some (what ^ (if pinned_same && repaired_ok && trigger_fired && not negative then " known=F2" else ""))
   end
 
-let eval inp = if is_big inp then eval_big inp else model M.current_variant inp
+(* ---- W and L lines (round 5; harness/cmd/cachetrace/round5.go) ----
+   W: the cache on the harness's own list-based LRU Store, handed over through Config.WithStore.  The model's
+      prediction is the model of cache.go over the REPAIRED heap variant of the store - an exact LRU store, as
+      the harness's is (C08_refines_S2_repaired) - with the store's state shown as the entries in recency order
+      (the heap sorted by lastAccess).  Known finding F2 lives in lruStore's heap and has no part here: the
+      spec is the reference LRU, strictly.
+   L: other instantiations of Cache[Key, Value] on cache.LRU(), sized by cache.Length; the value for code v has
+      v mod k bytes, so the model runs with sizes "m<k>"; values are shown as the hex of those bytes.  The
+      generator uses at most five keys per line, where the pinned code is exactly LRU (C08_lru_settled_partial),
+      so the spec is strict here too (no attribution to F2). *)
+
+let length_alphabet = "a\xc3\xa9\xe2\x98\x83\xf0\x9f\x98\x80b"
+let length_hex k (v : M.z) =
+  let v = int_of_z v in
+  if v < 0 || k < 1 then "" else
+  String.concat "" (List.init (v mod k) (fun i -> Printf.sprintf "%02x" (Char.code length_alphabet.[(v + i) mod 11])))
+
+type rline = { rkind : char; rlim : M.z; rmode : string; rcfg : string; rk : int; rops : (M.z, M.z) M.op list }
+
+let is_r inp = String.length inp > 1 && (inp.[0] = 'W' || inp.[0] = 'L') && inp.[1] = ' '
+
+let parse_r inp =
+  let ops = function [] -> [] | [o] -> parse_ops o | _ -> failwith "bad input" in
+  match words inp with
+  | "W" :: lim :: mode :: cfg :: rest ->
+    if not (List.mem cfg ["a"; "b"; "c"; "d"; "A"; "B"; "C"; "D"; "n"; "z"; "N"; "Z"]) then failwith "bad cfg";
+    { rkind = 'W'; rlim = z_of_string lim; rmode = mode; rcfg = cfg; rk = 0; rops = ops rest }
+  | "L" :: lim :: kinds :: k :: rest ->
+    let k' = int_of_string k in
+    if String.length kinds <> 2 || not (String.contains "istfap" kinds.[0]) || not (String.contains "sbnm" kinds.[1]) || k' < 1 then failwith "bad kinds";
+    let os = ops rest in
+    List.iter (function M.OPut (_, M.Zneg _) -> failwith "negative value code" | _ -> ()) os;
+    { rkind = 'L'; rlim = z_of_string lim; rmode = "m" ^ k; rcfg = kinds; rk = k'; rops = os }
+  | _ -> failwith "bad input"
+
+let no_store l = l.rkind = 'W' && List.mem l.rcfg ["n"; "z"; "N"; "Z"]
+let render_of l = if l.rkind = 'W' then string_of_z else length_hex l.rk
+
+let show_out_r rv = function
+  | M.RBool b -> b01 b
+  | M.RGet (v, ok) -> b01 ok ^ ":" ^ rv v
+  | M.RUnit -> "."
+  | M.RNum n -> string_of_z n
+let show_log_r rv log = if log = [] then "." else String.concat "," (List.map (fun (k, v) -> string_of_z k ^ ":" ^ rv v) log)
+
+(* the store's entries, least recently used first; a digest above 40 entries (as the harness) *)
+let show_ents (l : (M.z * M.z) list) =
+  let n = List.length l in
+  if n > 40 then Printf.sprintf "#%d.%s" n (show_hash (List.fold_left (fun h (k, v) -> feed (feed h (int_of_z k)) (int_of_z v)) (0, 0) l))
+  else show_log_r string_of_z l
+
+let eval_r inp =
+  match (try Some (parse_r inp) with _ -> None) with
+  | None -> "?"
+  | Some l ->
+    if no_store l then "NEWPANIC" else
+    let rv = render_of l in
+    let variant = if l.rkind = 'W' then M.repaired else M.current_variant in
+    String.concat ";" (List.map (function
+      | (M.EOk (r, log), Some c) ->
+        if l.rkind = 'W' then begin
+          let by_stamp = List.sort (fun (a : (M.z, M.z) M.prio) b -> compare (int_of_z a.M.lastAccess) (int_of_z b.M.lastAccess)) c.M.store.M.access.M.data in
+          let ents = List.map (fun (e : (M.z, M.z) M.prio) -> (e.M.key, e.M.value)) by_stamp in
+          String.concat "/" [show_out_r rv r; show_log_r rv log; string_of_z (M.cache_len c); string_of_z (M.cache_size c); show_ents ents]
+        end else show_out_r rv r ^ "/" ^ show_log_r rv log ^ "/" ^ show_state c
+      | (M.EOk (r, log), None) -> show_out_r rv r ^ "/" ^ show_log_r rv log ^ "/?"
+      | (M.EPanic k, _) -> show_panic k
+      | (M.EFuel, _) -> "FUEL") (M.run_Z variant (z_of_int (mode_of l.rmode)) l.rlim l.rops))
+
+let spec_r inp out =
+  match (try Some (parse_r inp) with _ -> None) with
+  | None -> None                      (* not a case (the harness answers "?") *)
+  | Some l ->
+  if out = "?" then None else
+  if no_store l then (if out <> "NEWPANIC" then Some "cache.New with a Config that has no store did not panic" else None) else
+  if not (zpos l.rlim) then (if out <> "NEWPANIC" then Some "cache.New with limit <= 0 did not panic" else None) else
+  let obs_s = if out = "" then [] else String.split_on_char ';' out in
+  if List.exists (fun s -> (String.length s >= 5 && String.sub s 0 5 = "PANIC") || s = "NEWPANIC") obs_s then
+    Some "panic on a history with limit > 0"
+  else if out = "hang" then Some "hang"
+  else if List.length obs_s <> List.length l.rops then Some "wrong number of observations"
+  else begin
+    let rv = render_of l in
+    let sizeOf = M.size_mode (z_of_int (mode_of l.rmode)) in
+    let want = M.s2_run zeq M.Z0 sizeOf l.rlim [] l.rops in
+    let states = M.s2_states zeq M.Z0 sizeOf l.rlim [] l.rops in
+    let sort_log s = if s = "." then s else String.concat "," (List.sort compare (String.split_on_char ',' s)) in
+    let rec go i ops obs want states =
+      match ops, obs, want, states with
+      | o :: ops', ob :: obs', (r, log) :: want', st :: states' ->
+        (match String.split_on_char '/' ob with
+         | res :: ev :: ln :: sz :: rest ->
+           let w_res = show_out_r rv r and w_ev = show_log_r rv log in
+           (* Clear's callbacks as a multiset, every other log in order (as on H lines) *)
+           let (ev', w_ev') = if o = M.OClear then (sort_log ev, sort_log w_ev) else (ev, w_ev) in
+           let total = M.total sizeOf st in
+           if res <> w_res || ev' <> w_ev' then
+             Some (Printf.sprintf "call #%d %s: result %s callbacks [%s]; the reference LRU gives result %s callbacks [%s]" i (show_op o) res ev w_res w_ev)
+           else if ln <> string_of_int (List.length st) then
+             Some (Printf.sprintf "call #%d %s: Len()=%s but %d keys are present" i (show_op o) ln (List.length st))
+           else if sz <> string_of_z total then
+             Some (Printf.sprintf "call #%d %s: Size()=%s but the present values sum to %s" i (show_op o) sz (string_of_z total))
+           else if not (zle total l.rlim) then Some (Printf.sprintf "call #%d: Size()=%s exceeds the limit %s" i sz (string_of_z l.rlim))
+           else if l.rkind = 'W' && (match rest with e :: _ -> e <> show_ents st | [] -> true) then
+             Some (Printf.sprintf "call #%d %s: the store handed over through WithStore holds [%s]; the reference LRU's entries, least recently used first, are [%s]"
+                     i (show_op o) (match rest with e :: _ -> e | [] -> "") (show_ents st))
+           else go (i + 1) ops' obs' want' states'
+         | _ -> Some (Printf.sprintf "call #%d: unreadable observation" i))
+      | _, _, _, _ -> None in
+    go 0 l.rops obs_s want states
+  end
+
+let eval inp = if is_r inp then eval_r inp else if is_big inp then eval_big inp else model M.current_variant inp
 
 let spec prop inp out =
+  if is_r inp then (if prop = "C08" || prop = "C09" then spec_r inp out else None) else
   if is_big inp then (if prop = "C08" || prop = "C09" then spec_big inp out else None) else
   (* C09: the sequential object of the linearizability claim is checked against the policy-agnostic
      reference only (the eviction order, known finding F2, is C08's business) *)
